@@ -10,6 +10,7 @@ use vcommon::{fnv, jobj, jstr, Args, Report, Rng};
 
 struct QStats {
     far_end: u64,
+    alternating: u64,
     queries: u64,
     multi_segment: u64,
     in_overlap: u64,
@@ -149,7 +150,7 @@ pub fn run(args: &Args, rep: &mut Report) {
     let dir = format!("{}/rg-{}-{}", scratch, std::process::id(), args.shard);
     std::fs::create_dir_all(&dir).unwrap();
     let only: Option<u64> = args.case.as_ref().and_then(|c| c.parse().ok());
-    let mut st = QStats { far_end: 0, queries: 0, multi_segment: 0, in_overlap: 0, touch_rc: 0, empty_result: 0, beyond_end: 0 };
+    let mut st = QStats { far_end: 0, alternating: 0, queries: 0, multi_segment: 0, in_overlap: 0, touch_rc: 0, empty_result: 0, beyond_end: 0 };
     for i in 0..n {
         if !args.mine(i) {
             continue;
@@ -177,6 +178,7 @@ pub fn run(args: &Args, rep: &mut Report) {
         let before = st.queries;
         let verdict: Result<(), (String, String, String)> = (|| {
             let mut d = drive::open(&path).map_err(|e| (String::new(), String::new(), format!("error: open failed: {:#}", e)))?;
+            let mut prev: Option<(String, String)> = None;
             for s in &set.samples {
                 for (cname, data) in &s.contigs {
                     if data.is_empty() {
@@ -188,6 +190,36 @@ pub fn run(args: &Args, rep: &mut Report) {
                         Ok(Err(w)) => return Err((s.name.clone(), cname.clone(), w)),
                         Err(pn) => return Err((s.name.clone(), cname.clone(), format!("panic: query panicked: {}", drive::panic_message(&pn)))),
                     }
+                    // ranges alternating between this contig and the previous one on the same
+                    // handle (contigs of different samples share stored segments, also in the
+                    // opposite orientation)
+                    if let Some((ps, pc)) = prev.clone() {
+                        let r = catch_unwind(AssertUnwindSafe(|| -> Result<(), String> {
+                            let full_a = d.get_contig(&ps, &pc).map_err(|e| format!("error: get_contig failed: {:#}", e))?;
+                            let full_b = d.get_contig(&s.name, cname).map_err(|e| format!("error: get_contig failed: {:#}", e))?;
+                            for q in 0..24 {
+                                let (sn, cn, full) = if q % 2 == 0 { (&ps, &pc, &full_a) } else { (&s.name, cname, &full_b) };
+                                let l = full.len();
+                                // mirrored coordinates on every other pair: an inverted copy is hit at the same stored bases
+                                let (a0, b0) = (rng.usize(0, l), rng.usize(0, l + 1));
+                                let (a, b) = if q % 4 >= 2 { (l.saturating_sub(b0), l.saturating_sub(a0)) } else { (a0, b0) };
+                                let want: &[u8] = if a >= b || a >= l { &[] } else { &full[a..b.min(l)] };
+                                let got = d.get_contig_range(sn, cn, a, b).map_err(|e| format!("error: get_contig_range({},{}) failed: {:#}", a, b, e))?;
+                                st.queries += 1;
+                                st.alternating += 1;
+                                if got != want {
+                                    return Err(format!("range: get_contig_range({}, {}) on {:?}/{:?} returned {} bases that differ from the slice of the fully extracted contig ({} expected), asked right after a range of {:?}/{:?} on the same handle", a, b, sn, cn, got.len(), want.len(), if q % 2 == 0 { &s.name } else { &ps }, if q % 2 == 0 { cname } else { &pc }));
+                                }
+                            }
+                            Ok(())
+                        }));
+                        match r {
+                            Ok(Ok(())) => {}
+                            Ok(Err(w)) => return Err((s.name.clone(), cname.clone(), w)),
+                            Err(pn) => return Err((s.name.clone(), cname.clone(), format!("panic: query panicked: {}", drive::panic_message(&pn)))),
+                        }
+                    }
+                    prev = Some((s.name.clone(), cname.clone()));
                 }
             }
             Ok(())
@@ -262,6 +294,7 @@ pub fn run(args: &Args, rep: &mut Report) {
     }
     rep.count("range_queries", st.queries);
     rep.count("queries_with_an_end_near_the_largest_integer", st.far_end);
+    rep.count("queries_alternating_between_two_contigs_on_one_handle", st.alternating);
     rep.count("queries_spanning_several_segments", st.multi_segment);
     rep.count("queries_starting_or_ending_in_an_overlap", st.in_overlap);
     rep.count("queries_on_contigs_with_reverse_complemented_segments", st.touch_rc);
